@@ -73,29 +73,61 @@ def takeComment : Text → Text × Text
 /-- `scan_symbol` after its first (unconditionally consumed) character. -/
 def symbolTail (cs : Text) : Text × Text := spanWhile isSubsequentIdentifier cs
 
-/-- `scan_number` after the first character: returns consumed, rest, and whether a character that
-    is not a subsequent-number character was consumed (token becomes a symbol). -/
-def numberTail : Text → Text × Text × Bool
+/-- `scan_number` after the first character (pinned tree, before fix c1c04ca: a sign always
+    ends the run of number characters). Kept for the counter-witness
+    `Proofs/C16: signed_exponent_was_symbol`. -/
+def numberTailPinned : Text → Text × Text × Bool
   | [] => ([], [], false)
   | c :: cs =>
     if isSubsequentNumber c then
-      let r := numberTail cs; (c :: r.1, r.2.1, r.2.2)
+      let r := numberTailPinned cs; (c :: r.1, r.2.1, r.2.2)
     else if isSubsequentIdentifier c && c != ';' then
-      let r := numberTail cs; (c :: r.1, r.2.1, true)
+      let r := numberTailPinned cs; (c :: r.1, r.2.1, true)
+    else ([], c :: cs, false)
+
+/-- `scan_number` after the first character: returns consumed, rest, and whether a character that
+    is not a subsequent-number character (and not the sign of an exponent) was consumed (token
+    becomes a symbol). `mantissa`, `digits`, `marker` are the three booleans of the Rust loop as
+    they stand when the head of the text is peeked (after the first character: `true`,
+    "the first character is an ASCII digit", `false`). -/
+def numberTail (mantissa digits marker : Bool) : Text → Text × Text × Bool
+  | [] => ([], [], false)
+  | c :: cs =>
+    let marker' := mantissa && digits && (c == 'e' || c == 'E')
+    let mantissa' := mantissa && (isAsciiDigit c || c == '.')
+    let digits' := digits || isAsciiDigit c
+    if isSubsequentNumber c || (marker && (c == '+' || c == '-')) then
+      let r := numberTail mantissa' digits' marker' cs; (c :: r.1, r.2.1, r.2.2)
+    else if isSubsequentIdentifier c && c != ';' then
+      let r := numberTail mantissa' digits' marker' cs; (c :: r.1, r.2.1, true)
     else ([], c :: cs, false)
 
 /-- the loop of `scan_dot` once the token type is known to be `Symbol`. -/
 def dotSymbolTail (cs : Text) : Text × Text := spanWhile isSubsequentIdentifier cs
 
-/-- the loop of `scan_dot` while the type is `Number`: a further `.` switches to `Symbol`. -/
-def dotNumberTail : Text → Text × Text × Bool
+/-- the loop of `scan_dot` while the type is `Number` (pinned tree, before fix c1c04ca). -/
+def dotNumberTailPinned : Text → Text × Text × Bool
+  | [] => ([], [], false)
+  | c :: cs =>
+    if c == '.' then
+      let r := dotSymbolTail cs; (c :: r.1, r.2, true)
+    else if isSubsequentNumber c then
+      let r := dotNumberTailPinned cs; (c :: r.1, r.2.1, r.2.2)
+    else ([], c :: cs, false)
+
+/-- the loop of `scan_dot` while the type is `Number`: a further `.` switches to `Symbol`.
+    `mantissa`, `digits`, `marker` as in the Rust loop (at the first character after the dot:
+    `true`, `false`, `false`; here `mantissa` is cleared by anything but an ASCII digit). -/
+def dotNumberTail (mantissa digits marker : Bool) : Text → Text × Text × Bool
   | [] => ([], [], false)
   | c :: cs =>
     if c == '.' then
       -- token_type := Symbol; '.' is a subsequent identifier, consumed; continue as symbol
       let r := dotSymbolTail cs; (c :: r.1, r.2, true)
-    else if isSubsequentNumber c then
-      let r := dotNumberTail cs; (c :: r.1, r.2.1, r.2.2)
+    else if isSubsequentNumber c || (marker && (c == '+' || c == '-')) then
+      let r := dotNumberTail (mantissa && isAsciiDigit c) (digits || isAsciiDigit c)
+        (mantissa && digits && (c == 'e' || c == 'E')) cs
+      (c :: r.1, r.2.1, r.2.2)
     else ([], c :: cs, false)
 
 /-- `scan_string` after the opening quote: consumed text *including* the closing quote,
@@ -145,7 +177,20 @@ def scanDot (c : Char) (cs : Text) : Piece :=
   | [] => .tok [c] .dot []
   | d :: _ =>
     if isSubsequentNumber d then
-      let r := dotNumberTail cs
+      let r := dotNumberTail true false false cs
+      .tok (c :: r.1) (if r.2.2 then .symbol else .number) r.2.1
+    else if isSubsequentIdentifier d then
+      let r := dotSymbolTail cs
+      .tok (c :: r.1) .symbol r.2
+    else .tok [c] .dot cs
+
+/-- `scan_dot` of the pinned tree (before fix c1c04ca) -/
+def scanDotPinned (c : Char) (cs : Text) : Piece :=
+  match cs with
+  | [] => .tok [c] .dot []
+  | d :: _ =>
+    if isSubsequentNumber d then
+      let r := dotNumberTailPinned cs
       .tok (c :: r.1) (if r.2.2 then .symbol else .number) r.2.1
     else if isSubsequentIdentifier d then
       let r := dotSymbolTail cs
@@ -167,13 +212,18 @@ def scanOther (c : Char) (cs : Text) : Piece :=
     let r := symbolTail cs
     .tok (c :: r.1) .symbol r.2
   else if isInitialNumber c then
-    let r := numberTail cs
+    let r := numberTail true (isAsciiDigit c) false cs
     .tok (c :: r.1) (if r.2.2 then .symbol else .number) r.2.1
   else if c == ';' then
     let r := takeComment cs
     .skip (c :: r.1) r.2
   else if isWhitespaceL1 c then .skip [c] cs
   else .fail (.unexpectedToken c)
+
+/-- the number arm of the dispatch on the pinned tree (before fix c1c04ca) -/
+def scanNumberPinned (c : Char) (cs : Text) : Piece :=
+  let r := numberTailPinned cs
+  .tok (c :: r.1) (if r.2.2 then .symbol else .number) r.2.1
 
 /-- One iteration of the `while let Some(&(_, c)) = cur.peek()` loop of `scan`. -/
 def scanPiece (c : Char) (cs : Text) : Piece :=
